@@ -325,8 +325,9 @@ def registry_rules(prog, run, rid, aspect):
                         why = why or "countTest called %d times for %d tests" % (log.count(("countTest",)), n)
                     if log.count(("countFilteredOut",)) != sel.count(0):
                         why = why or "countFilteredOut called %d times for %d filtered-out tests" % (log.count(("countFilteredOut",)), sel.count(0))
-                    if env.get("currentRepetition_") != 4:
-                        why = why or "the repetition counter goes from 3 to %s" % (env.get("currentRepetition_"),)
+                    r0_, r1_ = env.get("repetitions", (None, None))
+                    if not (isinstance(r0_, int) and r1_ == r0_ + 1):
+                        why = why or "the repetition counter (getCurrentRepetition) goes from %s to %s" % (r0_, r1_)
                 elif aspect == "groups":
                     got = [e for e in log if e[0] in NOTIF]
                     want = [e for e in ref if e[0] in NOTIF]
